@@ -55,6 +55,37 @@ def dense_resmix(nb, na, steps=2):
     return Program("join", brs)
 
 
+def wrapper_dense(mac, nb, nw, steps=2):
+    """every branch: per step `nw` sibling wrappers, each with block captures at the same relative positions (distinct constants,
+    same closure signature), one of them nested in an outer wrapper, plus captures outside the wrappers"""
+    from .dsl import Wrap
+
+    is_try = mac in dsl.TRY
+    brs = []
+    for b in range(nb):
+        items = []
+        for s in range(steps):
+            first = True
+            for w in range(nw):
+                def cap(pos, lvl):
+                    c = 1 + b * 997 + s * 331 + w * 37 + pos * 5 + lvl
+                    return B("ev0(\"c.%d.%d.w%d.%d.%d\"); let k = %d_i64; move |v: i64| { ev(\"%d.%d.w%d.%d.%d\", &v); v + k }" % (s, b, w, pos, lvl, c, b, s, w, pos, lvl))
+                inner = [Op("|>", [cap(0, 0)]), Op("|>", [cap(1, 0)])]
+                if w == 1:
+                    # an outer wrapper around two sibling wrappers (values are Option<Option<Option<i64>>>)
+                    item = Wrap("|>", [Wrap("|>", [Op("|>", [cap(0, 1)])], close=True), Wrap("|>", [Op("|>", [cap(0, 2)])], close=True)], close=True, deferred=(s > 0 and first))
+                else:
+                    item = Wrap("|>", [Wrap("|>", inner, close=True)], close=True, deferred=(s > 0 and first))
+                first = False
+                items.append(item)
+            # a capture outside any wrapper, at an absolute position that equals a relative one inside
+            c = 7 + b * 13 + s
+            items.append(Op("|>", [B("ev0(\"c.%d.%d.out\"); let k = %d_i64; move |v: Option<Option<i64>>| { ev(\"%d.%d.out\", &v); v.map(|x| x.map(|y| y + k)) }" % (s, b, c, b, s))]))
+        init = "Some(Some(Some(%d_i64)))" % (b * 100000)
+        brs.append(Branch(O(init), items))
+    return Program(mac, brs, flavour="Opt" if is_try else None)
+
+
 def fold_branch(b):
     """fold / try_fold with both operands captured (operand index 0 and 1) next to other captures"""
     return Branch(
@@ -101,6 +132,12 @@ def dense_programs(tier):
         d, r = dsl.program_dsl(p), dsl.program_ref(p)
         rb, mb = run_bodies(p, d, r, nb)
         progs.append(Prog("resmix/%dx%d" % (nb, na), rb, mb, [[0]], "Full", meta={"macro": "join", "dsl": d[:400] + " ...", "ref": ""}))
+    for mac in ("join", "try_join", "join_spawn"):
+        for nb, nw in [(1, 2), (2, 2), (2, 3), (3, 4)]:
+            p = wrapper_dense(mac, nb, nw)
+            d, r = dsl.program_dsl(p), dsl.program_ref(p)
+            fm = '\nformat!("{:?}", x)'
+            progs.append(Prog("wdense/%s/%dx%d" % (mac, nb, nw), "let x = %s;%s" % (r, fm), "let x = %s;%s" % (d, fm), [[0]], "Full" if mac != "join_spawn" else "ProjSteps", meta={"macro": mac, "dsl": d[:400] + " ...", "ref": ""}))
     # many branches in the thread-spawning kinds (`__j10` vs `__j1`), 13 and 24 branches, two steps
     for nb in (13, 24):
         for mac in ("join_spawn", "try_join_spawn", "spawn"):
